@@ -17,7 +17,15 @@ def replay(f):
         problems = scenario(w["ops"])
         return dict(reproduced=bool(problems), signature="reopen:%s" % (w["ops"],), detail="ops %s: %s" % (w["ops"], "; ".join(problems[:3])))
     if k.startswith("history_"):
-        return dict(reproduced=None, signature="", detail="history conversion failures are replayed through value_repr only")
+        from harness.c12_history_plain import scenario as hist_scenario
+
+        if "recipe" not in w:
+            return dict(reproduced=None, signature="", detail="witness lacks the change recipe")
+        try:
+            problems = hist_scenario(w["recipe"], w["version"])
+        except Exception as e:
+            return dict(reproduced=True, signature="history-raised:%s:%r" % (type(e).__name__, w["recipe"]), detail="saving/loading the history %r (v%s) raised %s: %s" % (w["recipe"], w["version"], type(e).__name__, e))
+        return dict(reproduced=bool(problems), signature="history:%r:v%s" % (w["recipe"], w["version"]), detail="history %r (serializer v%s): %s" % (w["recipe"], w["version"], "; ".join(problems)))
     if "value_repr" in w:
         value = eval(w["value_repr"], {"__builtins__": {}})  # produced by our own harness
     else:
